@@ -213,6 +213,39 @@ def deductive_effects(res, agg):
 
 
 # ---------------------------------------------------------------- bounded: call sequences
+SCRATCH = (".coords_out", ".coords_from_transform")   # written by transform, read by no fit-time query (serialisation record / *_unseen inverse only)
+
+
+def deductive_frame(res, agg):
+    """frame condition of Preprocessor.transform and of the inverse transforms on the real chain (structural proxies):
+    no attribute of the preprocessor or of any transformer that exists after fit has another value afterwards, except the
+    two transform-time records"""
+    from vf.contracts.prep import trace_chain
+    fn = "Preprocessor.transform / inverse_transform_* (in the real chain)"
+    for name, kw in (("1 sample dim", {}), ("2 sample dims", dict(sample=("time", "run"), feature=("lat",))), ("sample MultiIndex", dict(multiindex=("time",))),
+                     ("no NaN check, lazy", dict(check_nans=False, lazy=True, compute=False)), ("standardised", dict(with_std=True))):
+        try:
+            paths = trace_chain(**kw)
+        except PathLimit as e:
+            res.undecided_reasons.append(f"{fn}[{name}]: {e}")
+            continue
+        res.paths += len(paths)
+        nret = 0
+        for pth in paths:
+            if pth.kind != "return":
+                continue
+            nret += 1
+            v = pth.value
+            a, b, c = v["state_fit"], v["state_transform"], v["state_end"]
+            d1 = {k: (a[k], b.get(k)) for k in a if a[k] != b.get(k) and not k.endswith(SCRATCH)}
+            d2 = {k: (b[k], c.get(k)) for k in b if b[k] != c.get(k)}
+            agg.vc(fn, "transform(new data) leaves every fitted attribute of the chain unchanged (frame: only the transform-time records coords_out / coords_from_transform)",
+                   struct_vc(not d1, str({k: str(x)[:120] for k, x in d1.items()})[:300]), name)
+            agg.vc(fn, "the inverse transforms (data, components, scores, unseen scores) modify nothing", struct_vc(not d2, str({k: str(x)[:120] for k, x in d2.items()})[:300]), name)
+        if nret == 0:
+            agg.vc(fn, "has-returning-path", struct_vc(False, "vacuity guard"), name)
+
+
 def _datasets(rng):
     def mk(nn, nlat, nlon, t0, kind="da"):
         X = rng.standard_normal((nn, nlat * nlon)) * np.linspace(1, 3, nlat * nlon) + rng.standard_normal((nn, 1))
@@ -422,8 +455,10 @@ def run(tier, seed):
     res = Result("C14")
     res.functions = ["xeofs.preprocessing.list_processor:GenericListTransformer.fit (loop rule, loop 0)", "GenericListTransformer.__init__",
                      "xeofs.single.eof_rotator:EOFRotator._fit_algorithm (effects)", "xeofs.single.eof:EOF._fit_algorithm (effects)",
-                     "xeofs.data_container.data_container:DataContainer.add"]
-    res.assumptions = ["loop rule: the loop `for i, x in enumerate(X)` of GenericListTransformer.fit is replaced mechanically (vf/sym/looprule.py) - termination is not proved",
+                     "xeofs.data_container.data_container:DataContainer.add",
+                     "xeofs.preprocessing.preprocessor:Preprocessor.transform / inverse_transform_data / _components / _scores / _scores_unseen (frame condition over Scaler, DimensionRenamer, MultiIndexConverter, Stacker, Sanitizer, Concatenator)"]
+    res.assumptions = ["frame condition: attributes are compared by value identity of the structural proxies; Stacker.coords_out and MultiIndexConverter.coords_from_transform are the chain's transform-time records and are exempt (no fit-time query reads them)",
+                       "loop rule: the loop `for i, x in enumerate(X)` of GenericListTransformer.fit is replaced mechanically (vf/sym/looprule.py) - termination is not proved",
                        "per-input transformers are represented by a recording stub class (construction / fit arguments); their own fits are history-free by construction of fresh objects",
                        "effect tracking covers name=, attrs=, item assignment and in-place arithmetic on proxies and on views derived from owned objects",
                        "observational purity of transform / inverse_transform / compute / serialize and cross-set / bootstrapper effects: bounded call sequences only"]
@@ -431,6 +466,7 @@ def run(tier, seed):
     agg = Agg(res, "C14")
     deductive_list_fit(res, agg)
     deductive_effects(res, agg)
+    deductive_frame(res, agg)
     agg.flush()
     run_bounded(res, tier, seed)
     return res
